@@ -28,6 +28,14 @@ def roleStr : Role → String
 
 def main : IO Unit := do
   IO.println s!"FACTS {accessFacts.length} FIELDS {declaredFields.length}"
+  -- non-trivial = the verdict depends on synchronisation (not a plain read of an init-only field)
+  let nontriv := accessFacts.filter fun f => match lookup disciplines f.loc with
+    | some .initOnly => f.kind != .read
+    | _ => true
+  let count (p : LDisc → Bool) : Nat := (accessFacts.filter fun f => match lookup disciplines f.loc with
+    | some d => p d
+    | none => false).length
+  IO.println s!"STATS nontrivial={nontriv.length} lock={count fun d => match d with | .lock _ => true | _ => false} confined={count fun d => match d with | .confined _ => true | _ => false} atomic={count fun d => d == .atomic} initOnly={count fun d => d == .initOnly} ownedLock={count fun d => match d with | .ownedLock _ _ => true | _ => false} held_nonempty={(accessFacts.filter fun f => !f.held.isEmpty).length} fresh={(accessFacts.filter fun f => f.fresh).length}"
   for f in accessFacts do
     if !factOK disciplines roles f then
       let held := ",".intercalate (f.held.map fun (m, md) => s!"{nameOf locNames m}:{modeStr md}")
